@@ -334,47 +334,84 @@ def run_fuzz(c, tier):
     enc = Enc(dump)
     table = dump["commands"]
     seeds = make_seeds(enc, c.rng)
-    for i, s in enumerate(seeds):
-        with open(os.path.join(d["seeds"], "s%04d" % i), "wb") as f:
-            f.write(s)
+    workers = 8 if tier == "quick" else 16
+    # every seed input is run once (shared out between the workers); a seed that crashes is kept as an artifact and does
+    # not stop the others
+    for w in range(workers):
+        os.makedirs(os.path.join(d["seeds"], "w%d" % w), exist_ok=True)
+    for i, sd in enumerate(seeds):
+        with open(os.path.join(d["seeds"], "w%d" % (i % workers), "s%04d" % i), "wb") as f:
+            f.write(sd)
     c.extra["fuzz_seed_inputs"] = len(seeds)
     c.extra["registered_commands"] = len(table)
     # the budget is a number of executions per worker (about 45 s x 8 / 15 min x 16 on an idle 16-core machine); the
     # wall-clock limit is only a watchdog.  A launch that ends with a crash is followed by another one for the rest.
-    workers = 8 if tier == "quick" else 16
     per_worker = 1350 if tier == "quick" else 22000
-    total = 240 if tier == "quick" else 2400
-    max_launches = 15 if tier == "quick" else 80
+    total = 300 if tier == "quick" else 2400
+    max_launches = 25 if tier == "quick" else 120
     deadline = time.time() + total
     stats = []
     lock = threading.Lock()
 
+    def launch(w, tag, args, remain, every):
+        log = os.path.join(d["logs"], "w%d_%s.log" % (w, tag))
+        cmd = [exe] + args + ["-timeout=10", "-rss_limit_mb=3000", "-malloc_limit_mb=2000", "-print_final_stats=1",
+                              "-artifact_prefix=" + os.path.join(d["art"], "w%d_" % w)]
+        env = dict(os.environ)
+        env.update(common.SAN_ENV)
+        env.update(fuzz_env(d["stats"], d["cwd"]))
+        env["FZ_SCRIPT_STATS_EVERY"] = str(every)
+        with open(log, "wb") as lf:
+            try:
+                p = subprocess.run(cmd, stdout=lf, stderr=subprocess.STDOUT, stdin=subprocess.DEVNULL,
+                                   cwd=d["cwd"], env=env, timeout=remain + 120)
+                rc = p.returncode
+            except subprocess.TimeoutExpired:
+                rc = "watchdog"
+        return rc, open(log, errors="replace").read()
+
     def worker(w):
         launches = 0
         done = 0
+        sdir = os.path.join(d["seeds"], "w%d" % w)
+        bad = os.path.join(d["seeds"], "crashing_w%d" % w)
+        os.makedirs(bad, exist_ok=True)
+        # 1. the seed inputs, as a list of files; after a crash the remaining ones are run by a new process
+        todo = sorted(os.path.join(sdir, f) for f in os.listdir(sdir))
+        while todo and launches < max_launches:
+            remain = int(deadline - time.time())
+            if remain < 4:
+                break
+            launches += 1
+            rc, txt = launch(w, "seeds%d" % launches, todo, remain, 1)
+            ran = re.findall(r"^Running: (\S+)", txt, re.M)
+            finished = set(re.findall(r"^Executed (\S+) in ", txt, re.M))
+            ex = len(ran)
+            done += ex
+            with lock:
+                stats.append(dict(worker=w, launch=launches, rc=rc, execs=ex, cov=0, ft=0, phase="seeds"))
+            if rc == 0 and len(finished) >= len(todo):
+                todo = []
+                break
+            culprit = [f for f in ran if f not in finished]
+            for f in culprit:
+                if os.path.exists(f):
+                    # (libFuzzer writes no artifact when it runs a list of files)
+                    kindname = "timeout-" if (rc == "watchdog" or "ERROR: libFuzzer: timeout" in txt) else "crash-"
+                    shutil.copy(f, os.path.join(d["art"], "w%d_%sseed_%s" % (w, kindname, os.path.basename(f))))
+                    shutil.move(f, os.path.join(bad, os.path.basename(f)))
+            todo = [f for f in todo if f not in finished and f not in culprit]
+            if not ran:
+                break
+        # 2. fuzzing from the seeds of this worker and the shared corpus
         while launches < max_launches and done < per_worker:
             remain = int(deadline - time.time())
             if remain < 4:
                 break
             launches += 1
-            log = os.path.join(d["logs"], "w%d_%d.log" % (w, launches))
-            # only the first launch of a worker replays the seed inputs
-            dirs = [d["corpus"], d["seeds"]] if launches == 1 else [d["corpus"]]
-            cmd = [exe] + dirs + ["-runs=%d" % max(1, per_worker - done), "-max_total_time=%d" % remain, "-timeout=10", "-rss_limit_mb=3000",
-                   "-malloc_limit_mb=2000", "-print_final_stats=1", "-max_len=400", "-len_control=0",
-                   "-artifact_prefix=" + os.path.join(d["art"], "w%d_" % w),
-                   "-seed=%d" % (c.seed * 100003 + w * 1009 + launches)]
-            env = dict(os.environ)
-            env.update(common.SAN_ENV)
-            env.update(fuzz_env(d["stats"], d["cwd"]))
-            with open(log, "wb") as lf:
-                try:
-                    p = subprocess.run(cmd, stdout=lf, stderr=subprocess.STDOUT, stdin=subprocess.DEVNULL,
-                                       cwd=d["cwd"], env=env, timeout=remain + 120)
-                    rc = p.returncode
-                except subprocess.TimeoutExpired:
-                    rc = "watchdog"
-            txt = open(log, errors="replace").read()
+            rc, txt = launch(w, "fuzz%d" % launches,
+                             [d["corpus"], sdir, "-runs=%d" % max(1, per_worker - done), "-max_total_time=%d" % remain, "-max_len=400",
+                              "-len_control=0", "-seed=%d" % (c.seed * 100003 + w * 1009 + launches)], remain, 64)
             m = re.search(r"stat::number_of_executed_units:\s*(\d+)", txt)
             ex = int(m.group(1)) if m else 0
             if not m:
@@ -383,7 +420,7 @@ def run_fuzz(c, tier):
             cf = re.findall(r"cov: (\d+) ft: (\d+)", txt)
             done += max(ex, 1)
             with lock:
-                stats.append(dict(worker=w, launch=launches, rc=rc, execs=ex,
+                stats.append(dict(worker=w, launch=launches, rc=rc, execs=ex, phase="fuzz",
                                   cov=int(cf[-1][0]) if cf else 0, ft=int(cf[-1][1]) if cf else 0))
 
     th = [threading.Thread(target=worker, args=(w,)) for w in range(workers)]
@@ -398,6 +435,7 @@ def run_fuzz(c, tier):
     c.extra["fuzz_launches_ended_by_crash"] = sum(1 for s in stats if s["rc"] not in (0,))
     c.extra["fuzz_cov_edges"] = max([s["cov"] for s in stats] + [0])
     c.extra["fuzz_corpus_units"] = len(os.listdir(d["corpus"]))
+    c.extra["fuzz_seed_inputs_that_crash"] = sum(len(os.listdir(os.path.join(d["seeds"], x))) for x in os.listdir(d["seeds"]) if x.startswith("crashing_"))
     if any(s["rc"] == "watchdog" for s in stats):
         c.inconc("a fuzzer process had to be stopped by the watchdog")
     # command statistics written by the target processes
